@@ -153,7 +153,10 @@ func TestLibFuzzer(t *testing.T) {
 		if msg == "" {
 			// the ordinary protocol does not reproduce it: keep the evidence, do not call it a violation
 			ev.Class("artifact-not-reproduced-by-the-replay-path")
-			os.WriteFile(filepath.Join(os.Getenv("VERIF_OUT"), "unreproduced-"+filepath.Base(f)), b, 0o644)
+			keep := filepath.Join(ev.VerifRoot(), "out", "C03")
+			os.MkdirAll(keep, 0o755)
+			os.WriteFile(filepath.Join(keep, "unreproduced-libfuzzer-"+filepath.Base(f)), b, 0o644)
+			os.WriteFile(filepath.Join(keep, "unreproduced-libfuzzer-"+filepath.Base(f)+".log"), []byte(tailOf(log, 6000)), 0o644)
 			ev.Note(fmt.Sprintf("artifact %s (%d bytes, %s) did not reproduce through the harness protocol; fuzzer log tail: %s", filepath.Base(f), len(b), c.Kind, tailOf(log, 600)))
 			continue
 		}
